@@ -97,6 +97,13 @@ def run_conn(res, whiches, prop_filter=None, timeout=900, with_responder=False, 
                                    "diag": stxt.get(d, d), "at_event": i, "events_around": evs[max(0, i - 10):i + 3],
                                    "note": "the recorded trace is not a behaviour of Stream.sstep"})
         res.add_cov(stream_traces_validated=len(sitems) - len(sbad), stream_events=sum(len(e) for _, e in sitems))
+        fbad, fn, fe = conncommon.validate_forwarder(res, ws_runs, res.prop)
+        for r, conn, i, evs in fbad:
+            res.mismatches.append({"family": "conn/" + r["scenario"], "params": {k: v for k, v in r["params"].items() if k != "streams"},
+                                   "diag": "a value went out under another channel id than the forwarder model (swap-remove on both slices) computes",
+                                   "server_conn": conn, "at_event": i, "events_around": evs[max(0, i - 10):i + 3],
+                                   "note": "the recorded forwarder events are not a behaviour of Forwarder.step"})
+        res.add_cov(forwarder_traces_validated=fn - len(fbad), forwarder_events=fe)
     hist = collections.Counter()
     nev = 0
     for r, evs, outs in items:
